@@ -4,7 +4,7 @@ import re
 from . import common as C
 from . import programs as P
 from . import values as V
-from .decprops import (CFGS, TB_COMMON, corpus_files, dec_class, enc_project, enc_tie, hexs, own_corpus, run_both)
+from .decprops import (CFGS, TB_COMMON, corpus_files, dec_class, enc_project, enc_tie, hexs, own_corpus, run_both, second_encode_tie)
 
 GO_NAN = 0x7ff8000000000001
 
@@ -349,6 +349,15 @@ class C05:
         for n in V.INT_LATTICE:
             ins.append(P.INT(n) + b".")
             ins.append(b"(" + P.LONG(n) + P.INT(n) + b"t.")
+        # one container reached twice (no cycle): remembered by PUT / MEMOIZE / DUP, filled before and / or after, fetched again - as
+        # element of a tuple, of a list, as two values of a dict, behind a persistent reference
+        from .pyprops import sharing_programs
+        shared = sharing_programs()
+        ins += shared if ctx.thorough else rng.sample(shared, min(len(shared), 500))
+        for mk, fill in ((b"}", b"K\x01K\x02s"), (b"]", b"K\x01a"), (b"}", b"(K\x01K\x02K\x03K\x04u"), (b")", b""), (b"K\x05\x85", b"")):
+            one = mk + fill + b"q\x00"
+            ins += [b"(" + one + b"h\x00l.", b"}K\x01" + one + b"sK\x02h\x00s.", b"(" + one + b"h\x00h\x00t.", b"]" + one + b"ah\x00a.",
+                    one + b"h\x00\x86\x85.", b"cm\nn\n(" + one + b"h\x00tR.", one + b"0(h\x00h\x00}h\x00h\x00sl."]
         lines, meta = [], []
         seen = set()
         for data in ins:
@@ -523,6 +532,10 @@ class C12:
             if not ok:
                 ctx.disagree(sl[:2000], "pickletools rejects", vd, "Lean scanner vs pickletools.genops")
         self.scan_reflect(ctx)
+        # every pickle an Encoder writes is a whole pickle of the requested protocol - also the second, third one of the same Encoder
+        vs = self.values(ctx, ctx.scale(120, 2000))
+        cases = [(rng.randint(0, 5), rng.random() < 0.5, "-", rng.choice(vs), v) for v in vs]
+        second_encode_tie(ctx, cases, "encoder-reuse")
         for i in range(0, len(lines), max(1, len(lines) // 8)):
             ctx.sample(lines[i][:300] + " -> " + go[i][:200])
 
